@@ -405,7 +405,7 @@ func genExtra(g *core.Gen) {
 		g.Case("rfc6979", true, fmt.Sprintf("C11 rfc %x %x %s %s %d", b32(randPriv(r)), randMsg(r), extra, version, r.Intn(3)))
 	}
 	// AggregateKeys with caller-supplied WithKeysHash / WithUniqueKeyIndex, both option orders
-	for i := 0; i < g.N(50, 600); i++ {
+	for i := 0; i < g.N(40, 600); i++ {
 		n := r.Intn(5) + 1
 		var pks []*btcec.PublicKey
 		for _, d := range signerSet(r, n) {
@@ -450,7 +450,7 @@ func genExtra(g *core.Gen) {
 		g.Case("keyaggx:"+class, true, fmt.Sprintf("C11 keyaggx %s %s %s %x %d %s", b01(srt), strings.Join(ks, ","), randTweaks(r, 2), kh, idx, ord))
 	}
 	// every functional option value made once and reused (same / other key sets, sequential and concurrent)
-	for i := 0; i < g.N(30, 400); i++ {
+	for i := 0; i < g.N(24, 400); i++ {
 		var sets []string
 		nsig := r.Intn(3) + 1
 		ds := signerSet(r, nsig)
